@@ -751,7 +751,7 @@ func ruleCloneComplete(c *eng.Ctx) {
 	}
 	c.Rule(R, "clone functions assign every field of the struct from the same field of the source; fields that contain references (slices, maps, nested structs with slices) are rebuilt, not aliased, unless allow-listed by name with a reason", 12, 0)
 	for _, sp := range cloneSpecs {
-		fn := c.P.Func(sp.fn)
+		fn := c.P.FuncExact(sp.fn)
 		nt := c.P.NamedType(sp.pkg, sp.typ)
 		if fn == nil && nt != nil && sp.optional {
 			// the nested clone was inlined into its only caller: the caller's field is judged there
